@@ -80,6 +80,8 @@ def body():
     DEV = {  # deviation -> (certificate presented, chains to the anchors, possession proved)
         "honest": (True, True, True), "empty_cert": (False, False, False), "empty_cert_with_cv": (False, False, True), "no_cert_msg": (False, False, False),
         "cert_no_cv": (True, True, False), "cv_wrong_key": (True, True, False), "cv_stale_transcript": (True, True, False), "cv_alg_other": (True, True, False),
+        # a CertificateVerify whose signature field proves nothing: empty, two zero INTEGERs, half of the genuine one
+        "cv_sig_empty": (True, True, False), "cv_sig_zero": (True, True, False), "cv_sig_half": (True, True, False),
         # sequence deviations with otherwise good credentials: never a completed handshake
         "ccs_early": (True, True, True), "no_ccs": (True, True, True), "ccs_twice": (True, True, True), "finished_plain": (True, True, True), "finished_wrong": (True, True, True), "no_finished": (True, True, True)}
     MALFORMED = {"ccs_early", "no_ccs", "ccs_twice", "finished_plain", "finished_wrong", "no_finished"}
@@ -112,6 +114,9 @@ def body():
     SDEV = {257: {"honest": (True, True), "ske_wrong_key": (False, True), "ske_stale_random": (False, True), "no_ske": (False, False), "finished_wrong": (True, False), "finished_plain": (True, False), "no_ccs": (True, False)},
             772: {"honest": (True, True), "no_cv": (False, False), "no_cert": (False, False), "cv_wrong_key": (False, True), "cv_stale_transcript": (False, True), "cv_client_context": (False, True), "finished_wrong": (True, False)}}
     SDEV[772]["cv_alg_other"] = (False, True)
+    for dname in ("sig_empty", "sig_zero", "sig_half"):          # degenerate signatures in the server's possession proof
+        SDEV[257]["ske_" + dname] = (False, True)
+        SDEV[772]["cv_" + dname] = (False, True)
     for pr in (257, 772):          # negotiation answers the client did not ask for (771 is derived from 257 below)
         for dname in ("suite_not_offered", "suite_unknown", "version_other", "compression_nonzero") + (("version_lower",) if pr == 257 else ()):
             SDEV[pr][dname] = (True, False)
